@@ -8,8 +8,8 @@ from framework import ROOT
 from props import e1util
 from props.e1util import unhex
 
-TIE = ["Nsq.Tie.Num", "Nsq.Tie.PQ"]
-PROPS = ["Nsq.Props.C04"]
+TIE = ["Nsq.Tie.Num", "Nsq.Tie.PQ", "Nsq.Tie.TickLoop"]
+PROPS = ["Nsq.Props.C04", "Nsq.Props.C04Live"]
 MAXI64 = 2 ** 63 - 1
 
 
@@ -47,6 +47,11 @@ def run(ctx):
         "from the channel's queue and message ids are unique (no other message with the same id is published "
         "meanwhile); the pre-fix two-section shape is refuted by never_early_micro_false",
         "an empty delay argument on TCP (`REQ id ` / `DPUB topic `) is the empty digit string and reads as 0",
+        "C04Live (tick-count lateness, whole tick of queueScanLoop incl. the dirty loop): clock readings and the math/rand "
+        "stream are inputs; <= 20 channels: released by the first tick whose first round reads the clock at/after the "
+        "deadline (released_by_first_tick_after_deadline); > 20 channels: released by the first such tick that selects the "
+        "channel (released_when_selected) - no deterministic tick bound exists and none is claimed; a tick ends only after "
+        "a round with at most QueueScanDirtyPercent dirty channels (dirty_loop_guarantee)",
     ]
     ctx.rule = ("numeric: generated spellings (0, 1, boundary±1, max, 2^63±1, 2^64±k, 40 digits, leading zeros, "
                 "signs, spaces, hex/exponent/underscore/unicode digits, empty, one wrong byte) through the real "
@@ -57,6 +62,8 @@ def run(ctx):
                 "operation line; non-trivial = not a plain parse error / no-op")
     # 1-2 regenerate, build, audit
     gen_ok, _ = ctx.gen("e1_codec")
+    gen_ok2, _ = ctx.gen("e2_tick")      # statement order of the whole queueScanLoop tick (Tie.TickLoop)
+    gen_ok = gen_ok and gen_ok2
     ok, log = ctx.lean_build(TIE + PROPS)
     if not ok:
         ctx.lean_obligation_failed("lake build " + " ".join(TIE + PROPS), log[-1500:])
